@@ -47,6 +47,22 @@ def parseDelta (s : String) : Option Delta :=
 
 def handle (op : String) (args : List String) (impl : String) : Option Verdict :=
   match op, args with
+  | "ctor", [kind, variant] => some <| Id.run do
+    -- the constructor alone on an unusable share / a bad tweak. The signing constructors fail (at whichever of their
+    -- error exits: all are covered by `constructor_failure_balanced`); the others carry on with an empty key and are
+    -- stopped by their owner.
+    let some k := parseKind kind | return bad
+    if !(["noshare", "badshare", "emptyshare"].contains variant ||
+         (kind == "fsigning" && ["tweakhex", "tweaklen", "tweakorder"].contains variant)) then return bad
+    let fails := !k.exclusive
+    let some d := (sessionFrom true (table k) (if fails then .ctorerr else .never) 0).head? | return bad
+    let m := (if fails then "ctorerr;" else "ctorok;") ++ showDelta d
+    let ok := match impl.splitOn ";" with
+      | [_, ds] => (match parseDelta ds with
+        | some id => decide (Balanced id)
+        | none => false)
+      | _ => false
+    return ⟨m, ok, s!"ctor:{kind}:{variant}"⟩
   | "cell", [kind, "retried"] => some <| Id.run do
     let some k := parseKind kind | return bad
     if k.exclusive then return bad
